@@ -354,6 +354,8 @@ def ob_announce(run, oid):
 
 
 def check(run):
+    from . import detectors as _DL
+    _DL.ob_loop_exits(run, "O3.12", ['consensus::pool'], 'a loop over votes / certificates / pending blocks that stops early leaves certificates uncreated, unannounced or unsent')
     D.ob_state_mutations(run, "O3.7", ['consensus::pool::slot_state::SlotState', 'consensus::pool::slot_state::SlotVotes', 'consensus::pool::slot_state::SlotVotedStake', 'consensus::pool::slot_state::SlotCertificates'], 'votes, stake counters and certificates are the record every certificate is justified by: an extra overwrite/removal makes emitted certificates unjustified or repeated')
     ob_store_before_aggregate(run, "O3.1")
     ob_thresholds_creation(run, "O3.2")
@@ -369,3 +371,10 @@ def check(run):
     # (hand-written signature / bitmask encoders and decoders agree; decoder bounds admit everything the encoder emits)
     from . import C19
     C19.check(run, prefix="O3.9")
+    # "as soon as / only when the threshold is reached": the quorum predicates the creation guards call are the exact fractions,
+    # compared exactly (a strict `>` at exactly 80% neither creates nor accepts the fast-finalization certificate)
+    from . import C01, C09
+    C01.ob_constants(run, "O3.10a")
+    C01.ob_is_met(run, "O3.10b")
+    # "its aggregate signature verifies at every other node": check_sig accepts exactly when every present half verifies
+    C09.ob_sig_table(run, "O3.11")
